@@ -36,8 +36,63 @@ pub fn baseline_of(sc: &Scenario) -> Scenario {
     b.reader.overrides.clear();
     b.reader.profile = Profile::FULL;
     b.reader.heal_at_epilogue = false;
-    b.epilogue = false;
     b
+}
+
+/// Gate: is the fault-free run of this workload self-consistent and equal to the
+/// reference model? If the answers of the fault-free stream already depend on the call
+/// history or differ from the slice parser, "the answer it would have returned on a
+/// fault-free stream" is not well defined for this workload on this tree — that is C07's
+/// subject, and C17 records the workload as inconclusive instead of raising an alarm.
+pub fn gate_ok(base_sc: &Scenario, base: &StreamRun) -> bool {
+    fn slice_of<E: elf::endian::EndianParse>(sc: &Scenario) -> (Vec<OpOut>, Model) {
+        let bytes = sc.visible();
+        let model = Model::of(&bytes);
+        let caps = caps_for(&bytes, &model);
+        (run_slice::<E>(&bytes, &sc.ops, caps), model)
+    }
+    // epilogue answers equal the main answers
+    for st in base.steps.iter().filter(|s| s.epilogue) {
+        match base.steps.get(st.op_index) {
+            Some(m) if m.op_index == st.op_index && !m.epilogue => {
+                if m.out != st.out {
+                    return false;
+                }
+            }
+            _ => return false,
+        }
+    }
+    let (slice, model) = with_spec!(base_sc.spec, slice_of(base_sc));
+    let er = crate::equiv::EquivRun {
+        stream: base.clone(),
+        slice,
+        model,
+    };
+    let mut f = crate::equiv::RunFacts::default();
+    if crate::equiv::check_c07(base_sc, &er, &mut f).is_some() {
+        return false;
+    }
+    // history independence: every answer of the fault-free history equals the answer the
+    // same query gets on a fresh stream that is asked nothing else
+    if succeeded(er.stream.steps[0].out.tag) {
+        let mut seen: Vec<&Op> = Vec::new();
+        for st in er.stream.steps.iter().skip(1).filter(|s| !s.epilogue) {
+            let rec = &base_sc.ops[st.op_index - 1];
+            if seen.contains(&&rec.op) {
+                continue;
+            }
+            seen.push(&rec.op);
+            let mut one = base_sc.clone();
+            one.epilogue = false;
+            one.ops = vec![rec.clone()];
+            let r1 = execute(&one);
+            match r1.steps.get(1) {
+                Some(s1) if s1.out == st.out => {}
+                _ => return false,
+            }
+        }
+    }
+    true
 }
 
 /// Same reader profile, no faults (to recognise a tree whose answers depend on the legal
@@ -46,7 +101,6 @@ pub fn profile_twin_of(sc: &Scenario) -> Scenario {
     let mut b = sc.clone();
     b.reader.overrides.clear();
     b.reader.heal_at_epilogue = false;
-    b.epilogue = false;
     b
 }
 
@@ -88,6 +142,7 @@ pub fn build_workload(seed: u64, run: u64, tier: &str, samples: &Samples) -> Sce
             init_pos: io.below(len + 6),
             overrides: Vec::new(),
             heal_at_epilogue: false,
+            clean_after_failure: false,
         },
         epilogue: true,
         recipe,
@@ -97,6 +152,67 @@ pub fn build_workload(seed: u64, run: u64, tier: &str, samples: &Samples) -> Sce
 
 /// C17 oracle: judge a faulted run against the baseline run of the same workload.
 pub fn check_c17(sc: &Scenario, base: &StreamRun, run: &StreamRun) -> Option<Violation> {
+    let first = check_c17_with(sc, run, &|st: &StepRec| match base.steps.get(st.op_index) {
+        Some(b) if b.op_index == st.op_index => Some(b.out.clone()),
+        _ => None,
+    })?;
+    if first.clause != "residue" && first.clause != "pre-fault-divergence" {
+        return Some(first);
+    }
+    // Second opinion. "The answer it would have returned on a fault-free stream" is taken
+    // for the history the stream actually went through: the same calls minus the ones a
+    // failure made fail. On a tree whose fault-free answers depend on the call history
+    // (C07's subject) only this reference is meaningful; on a history-independent tree it
+    // equals the baseline. If the faulted run agrees with it, the difference is not a
+    // residue of the failure.
+    let survivors: Vec<&StepRec> = run
+        .steps
+        .iter()
+        .skip(1)
+        .filter(|s| !(s.failure_in_op || (s.failure_before && s.out.tag == Tag::Err)))
+        .collect();
+    if !succeeded(run.steps[0].out.tag) {
+        return Some(first);
+    }
+    let mut surv = baseline_of(sc);
+    surv.epilogue = false;
+    surv.ops = survivors
+        .iter()
+        .enumerate()
+        .map(|(i, s)| crate::ops::OpRec {
+            id: (i + 1) as u32,
+            op: sc.ops[s.op_index - 1].op.clone(),
+        })
+        .collect();
+    let reference = execute(&surv);
+    let lookup = |st: &StepRec| -> Option<crate::scen::OpOut> {
+        if st.op_index == 0 {
+            return reference.steps.first().map(|s| s.out.clone());
+        }
+        let pos = survivors.iter().position(|s| s.id == st.id)?;
+        reference.steps.get(pos + 1).map(|s| s.out.clone())
+    };
+    match check_c17_with(sc, run, &lookup) {
+        Some(v2) => Some(v2),
+        None => None,
+    }
+}
+
+/// True when `check_c17` dismissed a residue-class difference by the second opinion
+/// (bookkeeping for the evidence).
+pub fn dismissed_as_history_dependent(sc: &Scenario, base: &StreamRun, run: &StreamRun) -> bool {
+    let first = check_c17_with(sc, run, &|st: &StepRec| match base.steps.get(st.op_index) {
+        Some(b) if b.op_index == st.op_index => Some(b.out.clone()),
+        _ => None,
+    });
+    first.is_some() && check_c17(sc, base, run).is_none()
+}
+
+fn check_c17_with(
+    sc: &Scenario,
+    run: &StreamRun,
+    reference: &dyn Fn(&StepRec) -> Option<crate::scen::OpOut>,
+) -> Option<Violation> {
     let v = |clause: &str, op: &str, id: u32, detail: String| {
         Some(Violation {
             prop: "C17".into(),
@@ -112,13 +228,10 @@ pub fn check_c17(sc: &Scenario, base: &StreamRun, run: &StreamRun) -> Option<Vio
         } else {
             sc.ops[st.op_index - 1].op.name()
         };
-        // the baseline has no epilogue: its step for op_index i is steps[i] (when it opened)
-        let b = match base.steps.get(st.op_index) {
-            Some(b) if b.op_index == st.op_index => &b.out,
-            _ => continue,
-        };
+        let b_owned = reference(st);
         // (a) no panic where the baseline did not panic
-        if st.out.tag.is_panic() && !b.tag.is_panic() {
+        let ref_panicked = b_owned.as_ref().map(|b| b.tag.is_panic()).unwrap_or(false);
+        if st.out.tag.is_panic() && !ref_panicked {
             return v(
                 "panic",
                 op_name,
@@ -126,7 +239,7 @@ pub fn check_c17(sc: &Scenario, base: &StreamRun, run: &StreamRun) -> Option<Vio
                 format!(
                     "{} under faults; the fault-free run of the same op gave {}",
                     st.out.tag.name(),
-                    b.tag.name()
+                    b_owned.as_ref().map(|b| b.tag.name()).unwrap_or("no answer")
                 ),
             );
         }
@@ -141,7 +254,7 @@ pub fn check_c17(sc: &Scenario, base: &StreamRun, run: &StreamRun) -> Option<Vio
                 ),
             );
         }
-        if st.out.tag.is_panic() && b.tag.is_panic() {
+        if st.out.tag.is_panic() && ref_panicked {
             // the same panic with and without faults: another property's business (§3.9)
             continue;
         }
@@ -158,7 +271,10 @@ pub fn check_c17(sc: &Scenario, base: &StreamRun, run: &StreamRun) -> Option<Vio
                     ),
                 );
             }
+        } else if b_owned.is_none() {
+            continue;
         } else if !st.failure_before {
+            let b = b_owned.as_ref().unwrap();
             // (c) before any failure: exactly the baseline answer
             if st.out != *b {
                 return v(
@@ -173,6 +289,7 @@ pub fn check_c17(sc: &Scenario, base: &StreamRun, run: &StreamRun) -> Option<Vio
                 );
             }
         } else {
+            let b = b_owned.as_ref().unwrap();
             // (c) after a failure: fails again, or exactly the fault-free answer
             if st.out.tag != Tag::Err && st.out != *b {
                 return v(
@@ -350,6 +467,16 @@ pub fn run_exhaustive(
     if base.opened {
         rep.add("workloads_opened", 1);
     }
+    if !gate_ok(&base_sc, &base) {
+        rep.add("inconclusive_fault_free_run_not_equivalent", 1);
+        rep.notes.push(
+            J::obj()
+                .with("kind", J::s("inconclusive_fault_free_run_not_equivalent"))
+                .with("run", J::u(run))
+                .with("seed", J::u(seed)),
+        );
+        return C17Outcome { violation: None };
+    }
     let mut vr = Rng::sub(wl.reader.run_seed, 4);
     let n = base.events.len();
     rep.add("baseline_io_events", n as u64);
@@ -432,6 +559,10 @@ pub fn run_multi(seed: u64, run: u64, tier: &str, samples: &Samples, rep: &mut R
     let base_sc = baseline_of(&wl);
     let base = execute(&base_sc);
     rep.evaluations += 1;
+    if !gate_ok(&base_sc, &base) {
+        rep.add("inconclusive_fault_free_run_not_equivalent", 1);
+        return C17Outcome { violation: None };
+    }
     let mut fr = Rng::sub(wl.reader.run_seed, 5);
     let profile = if fr.chance(1, 3) {
         Profile::FULL
@@ -507,7 +638,7 @@ pub fn run_multi(seed: u64, run: u64, tier: &str, samples: &Samples, rep: &mut R
             _ => Fault::EofEarly { sticky: false },
         };
         // the epilogue can be targeted too
-        let op_id = if fr.chance(1, 8) && op_id != 0 {
+        let op_id = if fr.chance(1, 8) && op_id != 0 && op_id < EPILOGUE_ID_BASE {
             EPILOGUE_ID_BASE + op_id
         } else {
             op_id
@@ -516,6 +647,7 @@ pub fn run_multi(seed: u64, run: u64, tier: &str, samples: &Samples, rep: &mut R
     }
     wl.reader.overrides = ovs;
     wl.reader.heal_at_epilogue = fr.chance(1, 2);
+    wl.reader.clean_after_failure = true;
     let r = execute(&wl);
     rep.evaluations += 1;
     note_facts(&wl, &base, &r, rep);
@@ -532,7 +664,11 @@ pub fn run_multi(seed: u64, run: u64, tier: &str, samples: &Samples, rep: &mut R
 
 /// Re-judge a (possibly minimised) scenario from scratch: baseline + faulted run + oracle.
 pub fn judge(sc: &Scenario) -> Option<Violation> {
-    let base = execute(&baseline_of(sc));
+    let base_sc = baseline_of(sc);
+    let base = execute(&base_sc);
+    if !gate_ok(&base_sc, &base) {
+        return None;
+    }
     if !sc.reader.profile.is_full() {
         let twin = execute(&profile_twin_of(sc));
         let same = twin.steps.len() == base.steps.len()
